@@ -40,8 +40,10 @@ func goroutineDump() string {
 	return string(buf[:n])
 }
 
-// goroutineSigs: multiset of goroutine signatures (state + the function frames), used to tell which
-// goroutines exist after a run that did not exist before it.
+// goroutineSigs: multiset of goroutine signatures, used to tell which goroutines exist after a run that did
+// not exist before it.  The signature is the goroutine's ENTRY function and its creator (stable while the
+// goroutine lives); the current state and the top frames (time.Sleep, chan receive, ...) change all the time
+// for background loops and are only appended as a hint after " @ ".
 func goroutineSigs() map[string]int {
 	m := map[string]int{}
 	for _, blk := range strings.Split(goroutineDump(), "\n\n") {
@@ -50,8 +52,16 @@ func goroutineSigs() map[string]int {
 			continue
 		}
 		var fns []string
+		creator := ""
 		for _, ln := range lines[1:] {
-			if strings.HasPrefix(ln, "\t") || strings.HasPrefix(ln, "created by") {
+			if strings.HasPrefix(ln, "\t") || strings.TrimSpace(ln) == "" {
+				continue
+			}
+			if strings.HasPrefix(ln, "created by ") {
+				creator = strings.TrimPrefix(ln, "created by ")
+				if i := strings.Index(creator, " in goroutine"); i > 0 {
+					creator = creator[:i]
+				}
 				continue
 			}
 			if i := strings.LastIndex(ln, "("); i > 0 {
@@ -59,19 +69,48 @@ func goroutineSigs() map[string]int {
 			}
 			fns = append(fns, ln)
 		}
-		if len(fns) > 6 {
-			fns = fns[:6]
+		if len(fns) == 0 {
+			continue
 		}
-		st := lines[0]
-		if i := strings.Index(st, "["); i >= 0 {
-			st = st[i:]
-			if j := strings.IndexAny(st, ",]"); j > 0 {
-				st = st[:j] + "]"
-			}
-		}
-		m[st+" "+strings.Join(fns, " < ")]++
+		m[fns[len(fns)-1]+" < "+creator]++
 	}
 	return m
+}
+
+// goroutineHint: for a signature, the state + top frames of one goroutine that has it now
+func goroutineHint(sig string) string {
+	for _, blk := range strings.Split(goroutineDump(), "\n\n") {
+		lines := strings.Split(blk, "\n")
+		var fns []string
+		creator := ""
+		for _, ln := range lines[1:] {
+			if strings.HasPrefix(ln, "\t") || strings.TrimSpace(ln) == "" {
+				continue
+			}
+			if strings.HasPrefix(ln, "created by ") {
+				creator = strings.TrimPrefix(ln, "created by ")
+				if i := strings.Index(creator, " in goroutine"); i > 0 {
+					creator = creator[:i]
+				}
+				continue
+			}
+			if i := strings.LastIndex(ln, "("); i > 0 {
+				ln = ln[:i]
+			}
+			fns = append(fns, ln)
+		}
+		if len(fns) > 0 && fns[len(fns)-1]+" < "+creator == sig {
+			st := lines[0]
+			if i := strings.Index(st, "["); i >= 0 {
+				st = st[i:]
+			}
+			if len(fns) > 3 {
+				fns = fns[:3]
+			}
+			return st + " " + strings.Join(fns, " < ")
+		}
+	}
+	return ""
 }
 
 func cmdQStress(c Cmd) (interface{}, error) {
@@ -192,7 +231,7 @@ func cmdQStress(c Cmd) (interface{}, error) {
 		var extra []string
 		for sig, n := range goroutineSigs() {
 			if n > baseSigs[sig] && (strings.Contains(sig, "siglens/pkg/segment") || strings.Contains(sig, "pipesearch")) {
-				extra = append(extra, fmt.Sprintf("%dx %s", n-baseSigs[sig], sig))
+				extra = append(extra, fmt.Sprintf("%dx %s @ %s", n-baseSigs[sig], sig, goroutineHint(sig)))
 			}
 		}
 		sort.Strings(extra)
